@@ -32,7 +32,28 @@ INF = math.inf
 EPS = Fraction(1, 10 ** 12)
 
 
+def _decimal(rng):
+    """3-6 transfers started together on a congested pipe with limits and volumes that are not
+    exactly representable (0.1, 0.2, 0.3, ...): sums of limits depend on the order of addition in
+    the last bits, so whatever the pipe iterates over must have an order of its own - C02 compares
+    these programs across heap layouts, C13 compares them with the fluid model."""
+    actors = []
+    for i in range(rng.randint(3, 6)):
+        actors.append({"name": "t%d" % i, "ops": [
+            {"op": "transfer", "on": "P", "id": "x%d" % i,
+             "total": rng.choice([0.3, 0.7, 1.1, 1.9, 2.3]),
+             "tp": rng.choice([0.1, 0.2, 0.3, 0.7, 1.1, None])},
+            {"op": "now"}]})
+    return {"property": ID,
+            "scenario": {"resources": {"P": {"kind": "pipe",
+                                             "throughput": rng.choice([0.3, 0.5, 0.7])}},
+                         "actors": actors},
+            "plan": [], "config": {"waitq": rng.choice(["heap", "sd"])}}
+
+
 def generate(rng, tier):
+    if rng.random() < 0.12:
+        return _decimal(rng)
     kind = "pipe" if rng.random() < 0.88 else "upipe"
     tp = rng.choice([0.5, 1, 1, 2, 3, "inf"]) if kind == "pipe" else "inf"
     limits = [None, None, 0.25, 0.5, 1, 2, 3, 4, 8]
@@ -81,7 +102,9 @@ def generate(rng, tier):
                 continue
             if cage:
                 spec["cage"] = cage
-            plan.append(fault_for(kind_f, victim, rng.randint(3, 70)))
+            tick = rng.randint(3, 70) if rng.random() < 0.6 else \
+                3 + int(math.exp(rng.uniform(0.0, math.log(600.0))))     # a third run past tick 70
+            plan.append(fault_for(kind_f, victim, tick))
     if r > 0.7:
         victim = rng.choice(names)
         actors.append({"name": "killer", "ops": [
